@@ -1210,6 +1210,24 @@ pub fn f7() -> Fragment {
         vec![let_("@u", uri_lit(&["a"])), get(content(obj(vec![prop("x", var("@u"))])))],
         // shared ref
         vec![let_("@a", o.clone()), get(content(var("@a"))), get_at("b", content(arr(var("@a"))))],
+        // a reference whose every use carries an annotation (inline on the term; a line
+        // annotation on an alias; on an applied function); one plain use beside them
+        vec![let_("@a", o.clone()), get(content(ann(var("@a"), "description: at the only use")))],
+        vec![let_("@a", o.clone()), let_ann("p", "description: on the alias", var("@a")), get(content(var("p")))],
+        vec![
+            let_("@a", o.clone()),
+            Stmt::Let { anns: vec!["title: on the function".into()], name: "f".into(), params: vec!["x".into()], body: var("@a") },
+            get(content(app("f", vec![num()]))),
+        ],
+        vec![
+            let_("@a", o.clone()),
+            get(content(ann(var("@a"), "description: at one use"))),
+            get_at("b", content(var("@a"))),
+        ],
+        vec![
+            let_("@a", obj(vec![prop("kids", arr(var("@a")))])),
+            get(content(ann(var("@a"), "description: recursive, only use annotated"))),
+        ],
         // recursive ref
         vec![let_("@a", obj(vec![prop("kids", arr(var("@a")))])), get(content(var("@a")))],
         // mutually recursive refs
@@ -1500,6 +1518,28 @@ pub fn f8() -> Fragment {
                 ],
             });
         }
+    }
+    // two imports under one qualifier with disjoint names: both stay reachable through it
+    for order in [false, true] {
+        let mut main = vec![
+            Stmt::Use("a.oal".into(), Some("m".into())),
+            Stmt::Use("b.oal".into(), Some("m".into())),
+        ];
+        if order {
+            main.reverse();
+        }
+        main.push(get(content(obj(vec![
+            prop("one", qvar("m", "one")),
+            prop("two", qvar("m", "two")),
+            prop("f", E::App(Some("m".into()), "wrap".into(), vec![qvar("m", "two")])),
+        ]))));
+        programs.push(Program {
+            modules: vec![
+                Module { name: "main.oal".into(), stmts: main },
+                Module { name: "a.oal".into(), stmts: vec![let_("one", num()), fun("wrap", &["x"], arr(var("x")))] },
+                Module { name: "b.oal".into(), stmts: vec![let_("two", str_())] },
+            ],
+        });
     }
     // resources of an imported module are not part of the program
     programs.push(Program {
@@ -1841,6 +1881,23 @@ pub fn f9() -> Fragment {
         ))]));
         // schema examples fall back to the content
         programs.push(single(vec![get(content(ann(E::Paren(Box::new(obj(vec![prop("p", num())]))), a)))]));
+        // ... of a request too: the domain is a bare reference, a content holding it, an
+        // annotated schema in place; the same schema answers in a response of the operation
+        {
+            let pet = let_ann("@pet", a, obj(vec![prop("p", num())]));
+            let x = |m: Method, d: E, r: E| E::Xfer { methods: vec![m], params: None, domain: Some(Box::new(d)), range: Box::new(r) };
+            programs.push(single(vec![
+                pet.clone(),
+                Stmt::Res(rel(
+                    uri_lit(&["pets"]),
+                    vec![
+                        x(Method::Post, var("@pet"), E::Content(vec![(Meta::Status, status(201))], Some(Box::new(var("@pet"))))),
+                        x(Method::Put, content(var("@pet")), E::Content(vec![], None)),
+                        x(Method::Patch, ann(E::Paren(Box::new(obj(vec![prop("q", str_())]))), a), E::Content(vec![], None)),
+                    ],
+                )),
+            ]));
+        }
     }
     // transfers: description summary tags operationId
     for a in [
